@@ -87,11 +87,20 @@ def new_object(ir, inj, name=None, fields=None):
 # names are /[_A-Za-z][_0-9A-Za-z]*/: letters and digits of other scripts are not name characters
 BAD_NAMES = ["bad-name", "9starts_with_digit", "__reserved", "with space", "dollar$", "caf\u00e9", "x\u03b1",
              "us\u0435r", "field\u0661", "n\u540d", "\u00e9tat"]
+# endings that an end-anchored pattern may let through ('$' also matches before a final line feed)
+BAD_ENDINGS = ["\n", " ", "-", "$", "\u00e9", "\r", "\t", "\u0661", "\n\n", "\u2028"]
+
+
+def bad_name(rng, inj, tag, pool=None, prefix="zz"):
+    """An invalid name that is unique: the fresh part is a suffix, or (a third of the time) the name *ends* badly."""
+    if rng.random() < 0.33:
+        return prefix + inj.fresh(tag) + rng.choice(BAD_ENDINGS)
+    return rng.choice(pool or BAD_NAMES) + inj.fresh(tag)
 
 
 @op
 def invalid_type_name(rng, ir, inj):
-    name = rng.choice(["Bad-Type", "9Type", "__Reserved", "Sp ace", "Caf\u00e9", "T\u0443pe", "Type\u0661"]) + str(inj.fresh(""))
+    name = bad_name(rng, inj, "", ["Bad-Type", "9Type", "__Reserved", "Sp ace", "Caf\u00e9", "T\u0443pe", "Type\u0661"], prefix="ZzT")
     kind = rng.choice(["object", "enum", "input", "interface", "union", "scalar"])
     if kind == "object":
         t = new_object(ir, inj, name)
@@ -123,7 +132,7 @@ def invalid_type_name(rng, ir, inj):
 
 @op
 def invalid_field_name(rng, ir, inj):
-    bad = rng.choice(BAD_NAMES) + inj.fresh("F")
+    bad = bad_name(rng, inj, "F")
     o = new_object(ir, inj, fields=[SField(bad, named("Int"))])
     attach(ir, inj, o)
     return bad
@@ -131,7 +140,7 @@ def invalid_field_name(rng, ir, inj):
 
 @op
 def invalid_argument_name(rng, ir, inj):
-    bad = rng.choice(BAD_NAMES) + inj.fresh("A")
+    bad = bad_name(rng, inj, "A")
     o = new_object(ir, inj, fields=[SField(inj.fresh("zzok"), named("Int"), [SInput(bad, named("Int"))])])
     attach(ir, inj, o)
     return bad
@@ -139,7 +148,7 @@ def invalid_argument_name(rng, ir, inj):
 
 @op
 def invalid_enum_value_name(rng, ir, inj):
-    bad = rng.choice(["bad-value", "9nine", "__res", "sp ace"]) + inj.fresh("V")
+    bad = bad_name(rng, inj, "V", ["bad-value", "9nine", "__res", "sp ace"], prefix="ZZ")
     e = ir.add(SType("enum", inj.fresh("ZzEnum")))
     e.values = [SEnumValue("GOOD"), SEnumValue(bad)]
     attach(ir, inj, e)
@@ -148,7 +157,7 @@ def invalid_enum_value_name(rng, ir, inj):
 
 @op
 def invalid_input_field_name(rng, ir, inj):
-    bad = rng.choice(BAD_NAMES) + inj.fresh("I")
+    bad = bad_name(rng, inj, "I")
     t = ir.add(SType("input", inj.fresh("ZzInput")))
     t.input_fields = [SInput(bad, named("Int"))]
     attach_input(ir, inj, named(t.name))
@@ -157,14 +166,14 @@ def invalid_input_field_name(rng, ir, inj):
 
 @op
 def invalid_directive_name(rng, ir, inj):
-    bad = rng.choice(["bad-dir", "9dir", "__dir"]) + inj.fresh("D")
+    bad = bad_name(rng, inj, "D", ["bad-dir", "9dir", "__dir"])
     ir.directives[bad] = SDirective(bad, ["FIELD"])
     return bad
 
 
 @op
 def invalid_directive_argument_name(rng, ir, inj):
-    bad = rng.choice(BAD_NAMES) + inj.fresh("DA")
+    bad = bad_name(rng, inj, "DA")
     name = inj.fresh("zzdir")
     ir.directives[name] = SDirective(name, ["FIELD"], [SInput(bad, named("Int"))])
     return bad
